@@ -486,3 +486,50 @@ Proof.
     rewrite p_run_cons. inversion F as [|? ? Hx F']; subst.
     rewrite forallb_forall in A2. apply IH; [apply A2; exact Hx | cbn in L; lia | exact F'].
 Qed.
+
+(* ------------------------------------------------------------------ the pending slot
+   pending_le_connection is given up only on a path that emits (or has queued the callback that
+   emits) the LE Connection Complete for it: by create_le_connection when the connection is made,
+   by LE Create Connection Cancel through its deferred event.  In particular the early return of
+   create_le_connection ("Connection for <peer> already exists?") keeps the request pending. *)
+Lemma pend_cleared_emits s o s' out a :
+  p_step s o = (s', out) -> p_pend_le s = Some a -> p_pend_le s' <> Some a ->
+  (exists st h, In (LeConn st h a) out) \/ In (a, DeferredConnFail) (p_from s').
+Proof.
+  intros E P N. destruct o as [c|b| | |b|b|b|b]; cbn [p_step] in E.
+  - destruct c as [e b| |h|h|h|b|b]; cbn [step_cmd] in E; rewrite ?P in E.
+    + inversion E; subst. congruence.
+    + inversion E; subst. right. cbn. apply in_or_app. right. cbn. auto.
+    + destruct (find_any h (p_conns s)); inversion E; subst; cbn in N; congruence.
+    + destruct (find_conn h LE (p_conns s)); inversion E; subst; cbn in N; congruence.
+    + destruct (find_conn h LE (p_conns s)); inversion E; subst; cbn in N; congruence.
+    + inversion E; subst. congruence.
+    + destruct (memz b (p_present s)); inversion E; subst; cbn in N; congruence.
+  - destruct (memz b (p_present s)); [|inversion E; subst; congruence].
+    rewrite P in E. destruct (Z.eqb b a) eqn:Eb; [|inversion E; subst; congruence].
+    apply Z.eqb_eq in Eb. subst b.
+    destruct (conn_to a LE (p_conns s)); inversion E; subst; [congruence|].
+    left. eexists _, _. cbn. eauto.
+  - destruct (p_to s) as [|[b r] rest]; [inversion E; subst; congruence|].
+    destruct (memz b (p_present s)); [|inversion E; subst; cbn in N; congruence].
+    destruct r; try (inversion E; subst; cbn in N; congruence).
+    destruct (memz b (p_peer_conn s)); inversion E; subst; cbn in N; congruence.
+  - destruct (p_from s) as [|[b r] rest]; [inversion E; subst; congruence|].
+    destruct r; try (inversion E; subst; cbn in N; congruence);
+      destruct (conn_to b LE (p_conns s)); inversion E; subst; cbn in N; congruence.
+  - destruct (memz b (p_peer_req s) && memz b (p_present s)); inversion E; subst; cbn in N; congruence.
+  - destruct (memz b (p_peer_conn s) && memz b (p_present s)); inversion E; subst; cbn in N; congruence.
+  - inversion E; subst; cbn in N; congruence.
+  - inversion E; subst; cbn in N; congruence.
+Qed.
+
+(* the witness of seeded change C03-g: a second LE Create Connection towards a peer that is still
+   connected stays pending across that peer's advertisement, and is concluded by exactly one LE
+   Connection Complete: after the old link is gone and the peer advertises again, or by a cancel *)
+Lemma reconnect_while_connected :
+  groups_obs [2; 3] [[Cmd (LeCreate false 2)]; [Adv 2]; [Cmd (LeCreate true 2)]; [Adv 2]; [Cmd (Disconnect 1)];
+                     [Adv 2]]
+  = ([[0; 8205; 0]; [2; 0; 1; 2]; [0; 8259; 0]; [0; 1030; 0]; [3; 1]; [2; 0; 1; 2]], [], true, true) /\
+  groups_obs [2; 3] [[Cmd (LeCreate true 2)]; [Adv 2]; [Cmd (LeCreate false 2)]; [Adv 2]; [Cmd LeCancel]; [Cmd LeCancel]]
+  = ([[0; 8259; 0]; [2; 0; 1; 2]; [0; 8205; 0]; [1; 8206; 0]; [2; 2; 0; 2]; [1; 8206; 12]], [], true, true).
+Proof. vm_compute. split; reflexivity. Qed.
